@@ -339,9 +339,8 @@ func (c *Collection) WriteCas(key string, exp Exp, cas CAS, val any, opt sgbucke
 		var sql string
 		if (opt & sgbucket.Append) != 0 {
 			// Append:
-			sql = `UPDATE documents SET value=value || ?1, cas=?2, exp=?6, isJSON=?7,revSeqNo=?8,
-						xattrs=iif(tombstone != 0, null, xattrs)
-				   WHERE collection=?3 AND key=?4 AND cas=?5`
+			sql = `UPDATE documents SET value=value || ?1, cas=?2, exp=?6, isJSON=?7,revSeqNo=?8
+				   WHERE collection=?3 AND key=?4 AND cas=?5 AND value NOT NULL`
 		} else if (opt&sgbucket.AddOnly) != 0 || cas == 0 {
 			// Insert, but fall back to Update if the doc is a tombstone
 			sql = `INSERT INTO documents (collection, key, value, cas, exp, isJSON,revSeqNo,tombstone) VALUES(?3,?4,?1,?2,?6,?7,?8,?1 IS NULL)
@@ -378,6 +377,12 @@ func (c *Collection) WriteCas(key string, exp Exp, cas CAS, val any, opt sgbucke
 		xattrs, err := c.getRawXattrs(txn, key) // needed for the DCP event
 		if err != nil {
 			return nil, err
+		}
+		if (opt & sgbucket.Append) != 0 {
+			// the event describes the whole document, not just the appended bytes
+			if raw, _, _, err = c.getRaw(txn, key); err != nil {
+				return nil, err
+			}
 		}
 		casOut = newCas
 		return &event{
